@@ -3,6 +3,7 @@ package rules
 import (
 	"fmt"
 	"go/token"
+	"go/types"
 
 	"golang.org/x/tools/go/ssa"
 
@@ -128,181 +129,111 @@ func checkC20(c *Ctx) {
 		}
 	}
 
-	// --- C20.load
-	if mem := anchor(c, "(*"+pkgElf+".Parser).Memory"); mem != nil {
-		key := ShortName(mem)
-		ptLoad, _ := elfConst(c, "PT_LOAD")
-		var nbCall *ssa.Call
-		for _, cs := range Calls(mem) {
-			if f := Callee(cs.Common()); f != nil && f.Name() == "newBlock" {
-				nbCall, _ = cs.Instr.(*ssa.Call)
+	// --- C20.load: the blocks of the two images, wherever they are built
+	// (in the method itself or in a helper it hands the program header / section to)
+	checkImageBlocks(c, "(*"+pkgElf+".Parser).Memory", imageSpec{
+		list: "Progs", addr: "Vaddr",
+		guard: func(c *Ctx, fieldOf func(name string, v ssa.Value, chain []*ssa.Call) bool, g CtxGuard, st *imageState) {
+			bo, ok := g.Cond.(*ssa.BinOp)
+			if !ok {
+				return
 			}
-		}
-		if nbCall == nil {
-			c.Fail("C20.load", key, c.Prog.FuncPos(mem), "Memory() builds no block")
-		} else {
-			// loop over all Progs
-			loopOK := false
-			var prog ssa.Value
-			for _, l := range RangeLoops(mem) {
-				if n, _, ok := FieldNameOfLoad(l.Over); ok && n == "Progs" && LoopBlocks(l.Header)[nbCall.Block()] {
-					loopOK = true
-					// element
-					for _, b := range mem.Blocks {
-						for _, in := range b.Instrs {
-							if u, ok := in.(*ssa.UnOp); ok {
-								if idx, ok2 := elemLoadIndex(u, l.Over); ok2 && idx == l.Key {
-									prog = u
-								}
-							}
-						}
-					}
+			ptLoad, _ := elfConst(c, "PT_LOAD")
+			if fieldOf("Type", bo.X, g.Chain) {
+				if k, isK := ConstInt(bo.Y); isK && k == ptLoad && ((bo.Op == token.NEQ && !g.Outcome) || (bo.Op == token.EQL && g.Outcome)) {
+					st.ok["type"] = true
 				}
 			}
-			fieldOfProg := func(name string) Pat {
-				return func(v ssa.Value, _ *Bind) bool {
-					n, base, ok := FieldNameOfLoad(v)
-					if !ok || n != name {
-						return false
-					}
-					return DependsOn(base, func(x ssa.Value) bool { return x == prog })
-				}
+			if fieldOf("Memsz", bo.X, g.Chain) && fieldOf("Filesz", bo.Y, g.Chain) && ((bo.Op == token.LSS && !g.Outcome) || (bo.Op == token.GEQ && g.Outcome)) {
+				st.ok["size"] = true
 			}
-			// guards: Type == PT_LOAD, !(Memsz < Filesz)
-			typeOK, sizeOK := false, false
-			for _, g := range GuardsOf(nbCall.Block()) {
-				bo, ok := g.Cond.(*ssa.BinOp)
-				if !ok {
-					continue
-				}
-				if matches(bo.X, fieldOfProg("Type")) {
-					if k, isK := ConstInt(bo.Y); isK && k == ptLoad && ((bo.Op == token.NEQ && !g.Outcome) || (bo.Op == token.EQL && g.Outcome)) {
-						typeOK = true
-					}
-				}
-				if matches(bo.X, fieldOfProg("Memsz")) && matches(bo.Y, fieldOfProg("Filesz")) && ((bo.Op == token.LSS && !g.Outcome) || (bo.Op == token.GEQ && g.Outcome)) {
-					sizeOK = true
-				}
-			}
-			addrOK := matches(nbCall.Call.Args[0], Conv(fieldOfProg("Vaddr")))
-			// data: phi/append of io.ReadAll(p.Open()) and make(Memsz-len(data))
+		},
+		need: []string{"type", "size"},
+		why: map[string]string{
+			"type": "a segment other than PT_LOAD can become part of the memory image",
+			"size": "a segment whose in-memory size is smaller than its file size is not rejected",
+		},
+		data: func(c *Ctx, s Site, nb *ssa.Call, isElem func(v ssa.Value, chain []*ssa.Call) bool, fieldOf func(name string, v ssa.Value, chain []*ssa.Call) bool) string {
+			fn := s.Fn
 			var readAll *ssa.Call
-			for _, cs := range Calls(mem) {
+			for _, cs := range Calls(fn) {
 				if f := Callee(cs.Common()); f != nil && f.String() == "io.ReadAll" {
 					if DependsOn(cs.Common().Args[0], func(v ssa.Value) bool {
 						call, ok := v.(*ssa.Call)
-						return ok && call.Call.StaticCallee() != nil && call.Call.StaticCallee().String() == "(*debug/elf.Prog).Open" && call.Call.Args[0] == prog
+						return ok && call.Call.StaticCallee() != nil && call.Call.StaticCallee().String() == "(*debug/elf.Prog).Open" && isElem(call.Call.Args[0], s.Chain)
 					}) {
 						readAll, _ = cs.Instr.(*ssa.Call)
 					}
 				}
 			}
-			dataOK, fillOK := false, false
-			if readAll != nil {
-				data := extractOf(readAll, 0)
-				dataOK = DependsOn(nbCall.Call.Args[1], func(v ssa.Value) bool { return v == data })
-				// zero fill: append(data, make([]byte, Memsz - len(data))...)
-				for _, cs := range Calls(mem) {
-					if bi, ok := cs.Common().Value.(*ssa.Builtin); ok && bi.Name() == "append" && cs.Common().Args[0] == data {
-						if ms, ok := cs.Common().Args[1].(*ssa.MakeSlice); ok {
-							if matches(ms.Len, Conv(Bin(token.SUB, fieldOfProg("Memsz"), Conv(lenOf(data))))) {
-								fillOK = DependsOn(nbCall.Call.Args[1], func(v ssa.Value) bool { return v == ssa.Value(cs.Instr.(*ssa.Call)) })
+			if readAll == nil {
+				return "the block bytes are not the bytes read from the segment (p.Open())"
+			}
+			data := extractOf(readAll, 0)
+			if !DependsOn(nb.Call.Args[1], func(v ssa.Value) bool { return v == data }) {
+				return "the block bytes are not the bytes read from the segment (p.Open())"
+			}
+			// zero fill: append(data, make([]byte, Memsz - len(data))...)
+			for _, cs := range Calls(fn) {
+				if bi, ok := cs.Common().Value.(*ssa.Builtin); ok && bi.Name() == "append" && cs.Common().Args[0] == data {
+					if ms, ok := cs.Common().Args[1].(*ssa.MakeSlice); ok {
+						if matches(ms.Len, Conv(Bin(token.SUB, func(v ssa.Value, _ *Bind) bool { return fieldOf("Memsz", v, s.Chain) }, Conv(lenOf(data))))) {
+							if DependsOn(nb.Call.Args[1], func(v ssa.Value) bool { return v == ssa.Value(cs.Instr.(*ssa.Call)) }) {
+								return ""
 							}
 						}
 					}
 				}
 			}
-			bad := ""
-			switch {
-			case !loopOK || prog == nil:
-				bad = "segments are not taken from a loop over all program headers"
-			case !typeOK:
-				bad = "a segment other than PT_LOAD can become part of the memory image"
-			case !sizeOK:
-				bad = "a segment whose in-memory size is smaller than its file size is not rejected"
-			case !addrOK:
-				bad = "the block address is not the segment's Vaddr"
-			case !dataOK:
-				bad = "the block bytes are not the bytes read from the segment (p.Open())"
-			case !fillOK:
-				bad = "the block is not zero-filled up to Memsz"
+			return "the block is not zero-filled up to Memsz"
+		},
+	})
+	checkImageBlocks(c, "(*"+pkgElf+".Parser).MachineCode", imageSpec{
+		list: "Sections", addr: "Addr",
+		guard: func(c *Ctx, fieldOf func(name string, v ssa.Value, chain []*ssa.Call) bool, g CtxGuard, st *imageState) {
+			// skipMachineCodeSection(sec) is false
+			if call, ok := g.Cond.(*ssa.Call); ok && !g.Outcome && call.Call.StaticCallee() != nil && call.Call.StaticCallee().Name() == "skipMachineCodeSection" && st.isElem(call.Call.Args[0], g.Chain) {
+				st.ok["skip"] = true
 			}
-			c.Oblige("C20.load", key, c.Prog.Pos(nbCall.Pos()), bad == "", bad)
-			// appended and passed to nonEmptyMemory
-			app := false
-			for _, cs := range Calls(mem) {
-				if f := Callee(cs.Common()); f != nil && f.Name() == "nonEmptyMemory" {
-					app = DependsOn(cs.Common().Args[0], func(v ssa.Value) bool { return v == ssa.Value(nbCall) })
+			if bo, ok := g.Cond.(*ssa.BinOp); ok && st.dataLen != nil {
+				if st.dataLen(bo.X) && fieldOf("Size", bo.Y, g.Chain) && ((bo.Op == token.NEQ && !g.Outcome) || (bo.Op == token.EQL && g.Outcome)) {
+					st.ok["size"] = true
 				}
 			}
-			c.Oblige("C20.load", key+"/collected", c.Prog.FuncPos(mem), app, "the blocks built are not what nonEmptyMemory receives")
-		}
-	}
-	if mc := anchor(c, "(*"+pkgElf+".Parser).MachineCode"); mc != nil {
-		key := ShortName(mc)
-		var nbCall, skipCall, dataCall *ssa.Call
-		for _, cs := range Calls(mc) {
-			f := Callee(cs.Common())
-			if f == nil {
-				continue
-			}
-			call, _ := cs.Instr.(*ssa.Call)
-			switch {
-			case f.Name() == "newBlock":
-				nbCall = call
-			case f.Name() == "skipMachineCodeSection":
-				skipCall = call
-			case f.String() == "(*debug/elf.Section).Data":
-				dataCall = call
-			}
-		}
-		bad := ""
-		if nbCall == nil || skipCall == nil || dataCall == nil {
-			bad = "MachineCode() does not select sections with skipMachineCodeSection, read them with Data() and build blocks"
-		} else {
-			sec := skipCall.Call.Args[0]
-			loopOK := false
-			for _, l := range RangeLoops(mc) {
-				if n, _, ok := FieldNameOfLoad(l.Over); ok && n == "Sections" {
-					if idx, ok := elemLoadIndex(sec, l.Over); ok && idx == l.Key {
-						loopOK = true
-					}
+		},
+		need: []string{"skip", "size"},
+		why: map[string]string{
+			"skip": "a section that skipMachineCodeSection rejects can become part of the code image",
+			"size": "a section whose data length differs from its declared size is not rejected",
+		},
+		data: func(c *Ctx, s Site, nb *ssa.Call, isElem func(v ssa.Value, chain []*ssa.Call) bool, fieldOf func(name string, v ssa.Value, chain []*ssa.Call) bool) string {
+			var dataCall *ssa.Call
+			for _, cs := range Calls(s.Fn) {
+				if f := Callee(cs.Common()); f != nil && f.String() == "(*debug/elf.Section).Data" && isElem(cs.Common().Args[0], s.Chain) {
+					dataCall, _ = cs.Instr.(*ssa.Call)
 				}
 			}
-			skipOK, sizeOK := false, false
-			for _, g := range GuardsOf(nbCall.Block()) {
-				if g.Cond == ssa.Value(skipCall) && !g.Outcome {
-					skipOK = true
-				}
-				if bo, ok := g.Cond.(*ssa.BinOp); ok {
-					isLen := matches(bo.X, Conv(lenOf(extractOf(dataCall, 0))))
-					isSize := func(v ssa.Value) bool { n, _, ok := FieldNameOfLoad(v); return ok && n == "Size" }
-					if isLen && isSize(bo.Y) && ((bo.Op == token.NEQ && !g.Outcome) || (bo.Op == token.EQL && g.Outcome)) {
-						sizeOK = true
-					}
+			if dataCall == nil {
+				return "the data read does not belong to the section that was selected"
+			}
+			if nb.Call.Args[1] != extractOf(dataCall, 0) {
+				return "the block bytes are not the section's data"
+			}
+			return ""
+		},
+		dataLenOf: func(s Site) func(ssa.Value) bool {
+			var dataCall *ssa.Call
+			for _, cs := range Calls(s.Fn) {
+				if f := Callee(cs.Common()); f != nil && f.String() == "(*debug/elf.Section).Data" {
+					dataCall, _ = cs.Instr.(*ssa.Call)
 				}
 			}
-			addrOK := matches(nbCall.Call.Args[0], Conv(func(v ssa.Value, _ *Bind) bool {
-				n, base, ok := FieldNameOfLoad(v)
-				return ok && n == "Addr" && DependsOn(base, func(x ssa.Value) bool { return x == sec })
-			}))
-			switch {
-			case !loopOK:
-				bad = "sections are not taken from a loop over all sections of the file"
-			case dataCall.Call.Args[0] != sec:
-				bad = "the data read does not belong to the section that was selected"
-			case !skipOK:
-				bad = "a section that skipMachineCodeSection rejects can become part of the code image"
-			case !sizeOK:
-				bad = "a section whose data length differs from its declared size is not rejected"
-			case !addrOK:
-				bad = "the block address is not the section's Addr"
-			case nbCall.Call.Args[1] != extractOf(dataCall, 0):
-				bad = "the block bytes are not the section's data"
+			if dataCall == nil {
+				return nil
 			}
-		}
-		c.Oblige("C20.load", key, c.Prog.FuncPos(mc), bad == "", bad)
-	}
+			return func(v ssa.Value) bool { return matches(v, Conv(lenOf(extractOf(dataCall, 0)))) }
+		},
+	})
 
 	// --- C20.overlap
 	n := checkErrflow(c, "C20.overlap", []string{pkgElf}, nil)
@@ -326,26 +257,47 @@ func checkC20(c *Ctx) {
 				}
 			}
 		}
-		for _, b := range nm.Blocks {
-			ret, ok := b.Instrs[len(b.Instrs)-1].(*ssa.Return)
-			if !ok || IsNilConst(ret.Results[1]) {
-				continue
-			}
-			for _, g := range GuardsOf(b) {
-				bo, ok := g.Cond.(*ssa.BinOp)
-				if !ok {
-					continue
-				}
-				beg := func(v ssa.Value) bool { return matches(v, Method("Begin", Any())) }
-				end := func(v ssa.Value) bool { return matches(v, Method("End", Any())) }
-				if (bo.Op == token.LSS && beg(bo.X) && end(bo.Y) && g.Outcome) || (bo.Op == token.GTR && end(bo.X) && beg(bo.Y) && g.Outcome) {
-					if sortCall == nil || sortCall.Block().Dominates(b) {
-						overlap = true
-					}
-				}
-			}
+		_ = overlap
+		_ = sortCall
+		c.Oblige("C20.overlap", ShortName(nm)+"/sorted", c.Prog.FuncPos(nm), sorted, "newMemory does not sort the blocks by Begin() (sort.Slice with a less function comparing Begin())")
+		// the overlap decision, walked concretely on (already sorted) pairs and
+		// triples of blocks: an error exactly when a block begins before its
+		// predecessor ends; touching blocks are accepted
+		type blk struct{ b, l int64 }
+		lists := [][]blk{
+			{{10, 4}}, {{10, 4}, {14, 4}}, {{10, 4}, {13, 4}}, {{10, 4}, {20, 4}}, {{10, 4}, {10, 4}}, {{10, 4}, {11, 1}},
+			{{10, 4}, {14, 4}, {18, 2}}, {{10, 4}, {14, 4}, {17, 2}}, {{10, 4}, {13, 4}, {20, 2}}, {{10, 4}, {20, 4}, {30, 4}},
 		}
-		c.Oblige("C20.overlap", ShortName(nm), c.Prog.FuncPos(nm), sorted && overlap, "newMemory does not sort by Begin() and reject next.Begin() < prev.End()")
+		for li, list := range lists {
+			bl := &blockList{}
+			for _, x := range list {
+				bl.begins = append(bl.begins, x.b)
+				bl.lens = append(bl.lens, x.l)
+			}
+			vl := &Valuation{Enter: SamePackage(nm)}
+			bl.install(vl, func(r ssa.Value) bool { return r == ssa.Value(nm.Params[0]) })
+			res := vl.Walk(nm.Blocks[0], nil)
+			want := false
+			for i := 1; i < len(list); i++ {
+				if list[i].b < list[i-1].b+list[i-1].l {
+					want = true
+				}
+			}
+			key := fmt.Sprintf("%s/blocks#%d%v", ShortName(nm), li, list)
+			why := ""
+			isNil, known := res.RetNil[1]
+			switch {
+			case bl.crash != "":
+				why = bl.crash
+			case !res.OK:
+				why = "the function cannot be followed: " + res.Why
+			case !known:
+				why = "the error result cannot be evaluated"
+			case isNil == want:
+				why = fmt.Sprintf("blocks (begin, length) %v: overlap reported=%v, expected %v", list, !isNil, want)
+			}
+			c.Oblige("C20.overlap", key, c.Prog.FuncPos(nm), why == "", why)
+		}
 	}
 	if ne := anchor(c, pkgElf+".nonEmptyMemory"); ne != nil {
 		ok := false
@@ -365,58 +317,345 @@ func checkC20(c *Ctx) {
 
 	// --- C20.addr
 	if ba := anchor(c, "("+pkgElf+".Block).Address"); ba != nil {
-		n := 0
-		bad := ""
-		for _, b := range ba.Blocks {
-			for _, in := range b.Instrs {
-				sl, ok := in.(*ssa.Slice)
-				if !ok {
-					continue
+		// Block.Address(a), walked concretely for a block [4,7): the bytes from a
+		// to the end of the block for 4 <= a < 7, nothing otherwise
+		for a := int64(2); a <= 8; a++ {
+			const B, L = 4, 3
+			var lows []int64
+			var vl *Valuation
+			fieldName := func(v ssa.Value) string {
+				if n, _, ok := FieldNameOfLoad(v); ok {
+					return n
 				}
-				n++
-				lo, hi := false, false
-				for _, g := range GuardsOf(b) {
-					bo, ok := g.Cond.(*ssa.BinOp)
-					if !ok || !IsParam(bo.X, ba.Params[1]) {
-						continue
-					}
-					if matches(bo.Y, Method("Begin", Any())) && ((bo.Op == token.LSS && !g.Outcome) || (bo.Op == token.GEQ && g.Outcome)) {
-						lo = true
-					}
-					if matches(bo.Y, Method("End", Any())) && ((bo.Op == token.GEQ && !g.Outcome) || (bo.Op == token.LSS && g.Outcome)) {
-						hi = true
-					}
+				if f, ok := v.(*ssa.Field); ok && FieldOf(f) != nil {
+					return FieldOf(f).Name()
 				}
-				okLow := sl.Low != nil && matches(sl.Low, Conv(Bin(token.SUB, func(v ssa.Value, _ *Bind) bool { return IsParam(v, ba.Params[1]) }, Method("Begin", Any()))))
-				if !lo || !hi {
-					bad = "the bytes are sliced without Begin() <= a < End() having been established"
-				} else if !okLow || sl.High != nil {
-					bad = "the slice does not start at a-Begin() and run to the end of the block"
+				return ""
+			}
+			vl = &Valuation{
+				Enter: SamePackage(ba),
+				Int: func(v ssa.Value) (int64, bool) {
+					if vl.Root(v) == ssa.Value(ba.Params[1]) {
+						return a, true
+					}
+					if fieldName(v) == "begin" {
+						return B, true
+					}
+					if call, ok := v.(*ssa.Call); ok {
+						if bi, isBi := call.Call.Value.(*ssa.Builtin); isBi && bi.Name() == "len" && (fieldName(call.Call.Args[0]) == "bytes" || fieldName(vl.Root(call.Call.Args[0])) == "bytes") {
+							return L, true
+						}
+					}
+					return 0, false
+				},
+			}
+			highSet := false
+			vl.Visit = func(in ssa.Instruction) {
+				if sl, ok := in.(*ssa.Slice); ok && (fieldName(sl.X) == "bytes" || fieldName(vl.Root(sl.X)) == "bytes") {
+					lo := int64(0)
+					if sl.Low != nil {
+						lo, _ = vl.EvalInt(sl.Low, nil)
+					}
+					if sl.High != nil {
+						if hi, ok := vl.EvalInt(sl.High, nil); !ok || hi != L {
+							highSet = true
+						}
+					}
+					lows = append(lows, lo)
 				}
 			}
+			res := vl.Walk(ba.Blocks[0], nil)
+			inside := a >= B && a < B+L
+			key := fmt.Sprintf("%s/address %d of block [%d,%d)", ShortName(ba), a, B, B+L)
+			why := ""
+			isNil, known := res.RetNil[0]
+			switch {
+			case !res.OK:
+				why = "the method cannot be followed: " + res.Why
+			case func() bool { _, p := res.End.(*ssa.Panic); return p }():
+				why = "the method panics"
+			case !known:
+				why = "the result cannot be evaluated"
+			case inside && (isNil || len(lows) != 1 || lows[0] != a-B || highSet):
+				why = fmt.Sprintf("an address inside the block does not yield the bytes from offset %d to the end of the block (slices taken at %v)", a-B, lows)
+			case !inside && !isNil:
+				why = "an address outside the block yields bytes"
+			}
+			c.Oblige("C20.addr", key, c.Prog.FuncPos(ba), why == "", why)
 		}
-		c.Oblige("C20.addr", ShortName(ba), c.Prog.FuncPos(ba), n == 1 && bad == "", bad)
 	}
 	if ma := anchor(c, "(*"+pkgElf+".Memory).Address"); ma != nil {
-		searchOK, checkOK := false, false
-		for _, af := range ma.AnonFuncs {
-			for _, b := range af.Blocks {
-				if ret, ok := b.Instrs[len(b.Instrs)-1].(*ssa.Return); ok {
-					if bo, isBin := ret.Results[0].(*ssa.BinOp); isBin && bo.Op == token.GTR && matches(bo.X, Method("End", Any())) {
-						searchOK = true
+		// Memory.Address(addr), walked concretely over three blocks (two of them
+		// touching) with the search (sort.Search or a loop) followed: the block
+		// asked is the one that contains addr, or nothing is returned
+		begins, lens := []int64{10, 14, 30}, []int64{4, 4, 4}
+		for addr := int64(8); addr <= 35; addr++ {
+			bl := &blockList{begins: begins, lens: lens}
+			var vl *Valuation
+			var lows []int64
+			vl = &Valuation{
+				Enter: SamePackage(ma),
+				Int: func(v ssa.Value) (int64, bool) {
+					if vl.Root(v) == ssa.Value(ma.Params[1]) {
+						return addr, true
+					}
+					return 0, false
+				},
+			}
+			isBlocks := func(r ssa.Value) bool {
+				n, _, ok := FieldNameOfLoad(r)
+				return ok && n == "Blocks"
+			}
+			bl.install(vl, isBlocks)
+			vl.Visit = func(in ssa.Instruction) {
+				if sl, ok := in.(*ssa.Slice); ok && sl.Low != nil {
+					if _, isBytes := sl.X.Type().Underlying().(*types.Slice); isBytes {
+						if lo, ok := vl.EvalInt(sl.Low, nil); ok {
+							lows = append(lows, lo)
+						}
 					}
 				}
 			}
+			res := vl.Walk(ma.Blocks[0], nil)
+			want := int64(-1) // offset into the containing block
+			for i := range begins {
+				if addr >= begins[i] && addr < begins[i]+lens[i] {
+					want = addr - begins[i]
+				}
+			}
+			key := fmt.Sprintf("%s/address %d", ShortName(ma), addr)
+			why := ""
+			isNil, known := res.RetNil[0]
+			switch {
+			case bl.crash != "":
+				why = bl.crash
+			case !res.OK:
+				why = "the method cannot be followed: " + res.Why
+			case func() bool { _, p := res.End.(*ssa.Panic); return p }():
+				why = "the method panics"
+			case !known:
+				why = "the result cannot be evaluated"
+			case want < 0 && !isNil:
+				why = "an unmapped address yields bytes"
+			case want >= 0 && (isNil || len(lows) == 0 || lows[len(lows)-1] != want):
+				why = fmt.Sprintf("a mapped address does not yield the bytes from offset %d of its block (blocks [10,14) [14,18) [30,34); nil=%v, offsets %v)", want, isNil, lows)
+			}
+			c.Oblige("C20.addr", key, c.Prog.FuncPos(ma), why == "", why)
 		}
-		for _, cs := range Calls(ma) {
-			if f := Callee(cs.Common()); f != nil && f.Name() == "Address" {
-				for _, g := range GuardsOf(cs.Block()) {
-					if bo, ok := g.Cond.(*ssa.BinOp); ok && bo.Op == token.GTR && !g.Outcome && matches(bo.X, Method("Begin", Any())) && IsParam(bo.Y, ma.Params[1]) {
-						checkOK = true
-					}
+	}
+}
+
+// blockList is a concrete list of elf.Block values for the E7 walker: element
+// i begins at begins[i] and holds lens[i] bytes. install makes every read of
+// an element's begin field and of len(bytes) - however it is reached
+// (accessors, copies, helper functions) - evaluate to these numbers.
+type blockList struct {
+	begins, lens []int64
+	crash        string
+}
+
+func (bl *blockList) install(vl *Valuation, isList func(root ssa.Value) bool) {
+	// element index of a struct value / element address
+	var elemOf func(v ssa.Value) (int64, bool)
+	elemOf = func(v ssa.Value) (int64, bool) {
+		r, fr := vl.RootF(v)
+		// a struct copied into a local (value receiver, range variable): the
+		// value that was stored into it
+		if al, isAl := r.(*ssa.Alloc); isAl && al.Referrers() != nil {
+			for _, ref := range *al.Referrers() {
+				if st, isSt := ref.(*ssa.Store); isSt && st.Addr == ssa.Value(al) {
+					save := vl.SetFrame(fr)
+					r, fr = vl.RootF(st.Val)
+					vl.SetFrame(save)
+					break
 				}
 			}
 		}
-		c.Oblige("C20.addr", ShortName(ma), c.Prog.FuncPos(ma), searchOK && checkOK, "Memory.Address does not search for the first block with End() > addr and check Begin() <= addr")
+		var ia *ssa.IndexAddr
+		switch x := r.(type) {
+		case *ssa.IndexAddr:
+			ia = x
+		case *ssa.UnOp:
+			if a, ok := x.X.(*ssa.IndexAddr); ok {
+				ia = a
+			}
+		}
+		if ia == nil {
+			return 0, false
+		}
+		i, ok := vl.EvalIntF(fr, ia.Index)
+		if !ok {
+			return 0, false
+		}
+		// a reslice of the list with a constant lower bound
+		if sl, isSl := ia.X.(*ssa.Slice); isSl && sl.Low != nil {
+			if lo, ok := vl.EvalIntF(fr, sl.Low); ok {
+				i += lo
+			}
+		}
+		if i < 0 || i >= int64(len(bl.begins)) {
+			if bl.crash == "" {
+				bl.crash = fmt.Sprintf("element %d of a list of %d blocks is accessed", i, len(bl.begins))
+			}
+			return 0, false
+		}
+		return i, true
+	}
+	fieldRead := func(v ssa.Value) (string, ssa.Value, bool) {
+		switch x := v.(type) {
+		case *ssa.Field:
+			if f := FieldOf(x); f != nil {
+				return f.Name(), x.X, true
+			}
+		case *ssa.UnOp:
+			if fa, ok := x.X.(*ssa.FieldAddr); ok && x.Op == token.MUL {
+				if f := FieldOf(fa); f != nil {
+					return f.Name(), fa.X, true
+				}
+			}
+		}
+		return "", nil, false
+	}
+	userInt := vl.Int
+	vl.Int = func(v ssa.Value) (int64, bool) {
+		if name, base, ok := fieldRead(v); ok && name == "begin" {
+			if i, ok := elemOf(base); ok {
+				return bl.begins[i], true
+			}
+		}
+		if call, ok := v.(*ssa.Call); ok {
+			if bi, isBi := call.Call.Value.(*ssa.Builtin); isBi && bi.Name() == "len" {
+				arg := call.Call.Args[0]
+				if name, base, ok := fieldRead(arg); ok && name == "bytes" {
+					if i, ok := elemOf(base); ok {
+						return bl.lens[i], true
+					}
+				}
+				r := vl.Root(arg)
+				if name, base, ok := fieldRead(r); ok && name == "bytes" {
+					if i, ok := elemOf(base); ok {
+						return bl.lens[i], true
+					}
+				}
+				if isList(r) {
+					return int64(len(bl.begins)), true
+				}
+				if sl, isSl := r.(*ssa.Slice); isSl && isList(vl.Root(sl.X)) {
+					lo, hi := int64(0), int64(len(bl.begins))
+					if sl.Low != nil {
+						lo, _ = vl.EvalInt(sl.Low, nil)
+					}
+					if sl.High != nil {
+						hi, _ = vl.EvalInt(sl.High, nil)
+					}
+					return hi - lo, true
+				}
+			}
+		}
+		if userInt != nil {
+			return userInt(v)
+		}
+		return 0, false
+	}
+}
+
+// imageSpec describes how one of the two images is assembled from a list of
+// the ELF file (program headers / sections).
+type imageSpec struct {
+	list, addr string
+	guard      func(c *Ctx, fieldOf func(name string, v ssa.Value, chain []*ssa.Call) bool, g CtxGuard, st *imageState)
+	need       []string
+	why        map[string]string
+	data       func(c *Ctx, s Site, nb *ssa.Call, isElem func(v ssa.Value, chain []*ssa.Call) bool, fieldOf func(name string, v ssa.Value, chain []*ssa.Call) bool) string
+	dataLenOf  func(s Site) func(ssa.Value) bool
+}
+
+type imageState struct {
+	ok      map[string]bool
+	isElem  func(v ssa.Value, chain []*ssa.Call) bool
+	dataLen func(ssa.Value) bool
+}
+
+func checkImageBlocks(c *Ctx, rootName string, spec imageSpec) {
+	root := anchor(c, rootName)
+	if root == nil {
+		return
+	}
+	key := ShortName(root)
+	enter := InModulePkg(root)
+	// the loop over all elements of the list, in the root
+	var loop *RangeLoop
+	for _, l := range RangeLoops(root) {
+		if n, _, ok := FieldNameOfLoad(l.Over); ok && n == spec.list {
+			loop = l
+		}
+	}
+	if loop == nil {
+		c.Fail("C20.load", key, c.Prog.FuncPos(root), "the image is not assembled in a loop over all "+spec.list+" of the file")
+		return
+	}
+	isElem := func(v ssa.Value, chain []*ssa.Call) bool {
+		return DependsOnVia(chain, v, nil, func(x ssa.Value) bool {
+			idx, ok := elemLoadIndex(x, loop.Over)
+			return ok && idx == loop.Key
+		}, nil)
+	}
+	fieldOf := func(name string, v ssa.Value, chain []*ssa.Call) bool {
+		n, base, ok := FieldNameOfLoad(v)
+		return ok && n == name && isElem(base, chain)
+	}
+	sites := DeepInstrs(root, enter, func(in ssa.Instruction) bool {
+		call, ok := in.(*ssa.Call)
+		return ok && call.Call.StaticCallee() != nil && call.Call.StaticCallee().Name() == "newBlock"
+	})
+	if len(sites) == 0 {
+		c.Fail("C20.load", key, c.Prog.FuncPos(root), ShortName(root)+" builds no block")
+		return
+	}
+	for i, s := range sites {
+		nb := s.Instr.(*ssa.Call)
+		st := &imageState{ok: map[string]bool{}, isElem: isElem}
+		if spec.dataLenOf != nil {
+			st.dataLen = spec.dataLenOf(s)
+		}
+		// inside the loop over all elements (seen from the root)
+		var at ssa.Instruction = nb
+		if len(s.Chain) > 0 {
+			at = s.Chain[0]
+		}
+		bad := ""
+		if !LoopBlocks(loop.Header)[at.Block()] {
+			bad = "blocks are not built for every element of " + spec.list
+		}
+		for _, g := range s.GuardsCtx() {
+			spec.guard(c, fieldOf, g, st)
+		}
+		if bad == "" {
+			for _, n := range spec.need {
+				if !st.ok[n] {
+					bad = spec.why[n]
+					break
+				}
+			}
+		}
+		if bad == "" && !matches(nb.Call.Args[0], Conv(func(v ssa.Value, _ *Bind) bool { return fieldOf(spec.addr, v, s.Chain) })) {
+			bad = "the block address is not the element's " + spec.addr
+		}
+		if bad == "" {
+			bad = spec.data(c, s, nb, isElem, fieldOf)
+		}
+		k := key
+		if i > 0 {
+			k = fmt.Sprintf("%s#%d", key, i+1)
+		}
+		c.Oblige("C20.load", k, c.Prog.Pos(nb.Pos()), bad == "", bad)
+		// collected into what nonEmptyMemory receives
+		app := false
+		for _, cs := range Calls(root) {
+			if f := Callee(cs.Common()); f != nil && f.Name() == "nonEmptyMemory" {
+				app = DependsOnVia(nil, cs.Common().Args[0], enter, func(v ssa.Value) bool { return v == ssa.Value(nb) }, nil)
+			}
+		}
+		c.Oblige("C20.load", k+"/collected", c.Prog.FuncPos(root), app, "the blocks built are not what nonEmptyMemory receives")
 	}
 }
